@@ -14,13 +14,22 @@ fuzz_target!(|data: &[u8]| {
         eprintln!("FUZZ-CASE {}", serde_json::to_string(&case).unwrap());
         panic!("property {} violated", prop);
     };
-    if let Err(e) = c02::check(&case, &mut info) {
-        fail("C02", e);
+    // FUZZ_PROP selects one oracle (so that a violation of another property does not end the campaign)
+    let only = std::env::var("FUZZ_PROP").ok();
+    let want = |p: &str| only.as_deref().map(|o| o == p).unwrap_or(true);
+    if want("C02") {
+        if let Err(e) = c02::check(&case, &mut info) {
+            fail("C02", e);
+        }
     }
-    if let Err(e) = c08::check(&case, &mut info) {
-        fail("C08", e);
+    if want("C08") {
+        if let Err(e) = c08::check(&case, &mut info) {
+            fail("C08", e);
+        }
     }
-    if let Err(e) = c20::check(&case, &mut info) {
-        fail("C20", e);
+    if want("C20") {
+        if let Err(e) = c20::check(&case, &mut info) {
+            fail("C20", e);
+        }
     }
 });
